@@ -644,5 +644,5 @@ func (g *Gen) frameHavocAll() {
 		}
 	}
 	g.frameN++
-	g.oblige(fmt.Sprintf("frame#%d:havoc", g.frameN), "frame", g.cur.en, "false", "a call with unknown effects is reachable: the frame cannot be established", token.NoPos)
+	g.obligeX(fmt.Sprintf("frame#%d:havoc", g.frameN), "frame", g.cur.en, "false", "a call with unknown effects is reachable: the frame cannot be established", token.NoPos, false)
 }
